@@ -240,8 +240,8 @@ fn replay_known(k: &KnownFinding) -> bool {
 pub fn run(cfg: &Config) -> i32 {
     let started = Instant::now();
     let budget = Duration::from_secs_f64(cfg.pick(30.0, 300.0) * cfg.scale);
-    let mut stats = parallel(cfg, "strong", cfg.scaled(cfg.pick(1200, 1_000_000)), budget, |idx, r, st| strong_case(cfg, idx, r, st));
-    let s2 = parallel(cfg, "external", cfg.scaled(cfg.pick(1200, 1_000_000)), budget, |idx, r, st| external_case(cfg, idx, r, st));
+    let mut stats = parallel(cfg, "strong", cfg.scaled(cfg.pick(5000, 1_000_000)), budget, |idx, r, st| strong_case(cfg, idx, r, st));
+    let s2 = parallel(cfg, "external", cfg.scaled(cfg.pick(5000, 1_000_000)), budget, |idx, r, st| external_case(cfg, idx, r, st));
     stats.merge(s2);
     let mut known_replayed = Vec::new();
     for k in load_known(cfg).into_iter().filter(|k| k.property == "C12" && k.status == "open") {
